@@ -31,11 +31,11 @@ structure PJ where
 /-- Membership of a tag in one case clause of a `switch` extracted from the Go source. -/
 @[inline] def inCase (cases : List Nat) (t : UInt8) : Bool := cases.contains t.toNat
 
-/-- `cases[k]` of the first extracted switch of a function (empty if the shape changed). -/
-def caseOf (sw : List (List (List Nat))) (k : Nat) : List Nat :=
-  match sw with
-  | s :: _ => s.getD k []
-  | [] => []
+/-- clause `k` of the `i`-th extracted switch of a function (empty if the shape changed). -/
+def caseOfSw (sw : List (List (List Nat))) (i k : Nat) : List Nat := (sw.getD i []).getD k []
+
+/-- clause `k` of the first extracted switch of a function. -/
+def caseOf (sw : List (List (List Nat))) (k : Nat) : List Nat := caseOfSw sw 0 k
 
 /-- Go slice expression `a[lo:hi]` as a copy. -/
 @[inline] def slice (a : Array UInt8) (lo hi : Nat) : Array UInt8 := a.extract lo hi
